@@ -154,3 +154,49 @@ def error_swallow_rules(rep, rule, prog):
                    "the Err edge of this test reaches an Ok(..) return without passing an arm for a specific object_store::Error variant "
                    "(a backend failure would be reported as a normal answer)", "%s:%s" % (f.file, f.term(b).get("ln", f.line)))
     return n
+
+
+
+def commit_error_forgets_cache_rules(rep, rule, prog):
+    """Shared by C07 and C01: the metadata document put / delete inside `and_try_compute_with` is the commit point of a sidecar
+    store.  When the compute returns an error the cache entry is left as it was; other than for a known rejection that error may come
+    from the commit-point call itself, whose outcome is then unknown - the backend may have applied it.  A surviving entry keeps
+    handing out the superseded version and token (reads resolve the cache first; the old payload still exists) while conditional
+    writes are checked against the backend and refused.  So: the Err edge of the compute must reach a cache invalidation."""
+    n = 0
+    for f in prog.fns.values():
+        if not in_scope(f) or not f.path.startswith(SC + "::"):
+            continue
+        comp = f.calls_named(r"moka::future::entry_selector::OwnedKeyEntrySelector::<.*>::and_try_compute_with$")
+        if not comp:
+            continue
+        wbodies = {ff.id for (ff, e_, m_) in backend_events(prog, WRITE_METHODS)}
+        if not any(k.id in wbodies for k in prog.closures_of(f)):
+            continue        # a read-through fill (get_meta / refresh_meta): nothing is committed inside
+        # only computes whose closure reaches a backend write are commit points
+        inv_ids = {g.id for g in prog.fns.values() if in_scope(g) and any(
+            re.search(r"moka::future::cache::Cache::<K, V, S>::(invalidate|remove)$", e.name or "") for e in g.calls())}
+        inv_ids |= {gid for gid in prog.fns if in_scope(prog.fns[gid]) and prog.reach_set([gid]) & inv_ids}
+        for c in comp:
+            n += 1
+            rep.saw(f, 1)
+            src = c.poll_dest.l if c.poll_dest is not None else c.dest.l
+            errs = []
+            for (_, adt, m) in f.outcome_edges(src):
+                if "Err" in m:
+                    errs.append(m["Err"])
+                if "Break" in m:
+                    errs.append(m["Break"])
+            ok = bool(errs)
+            for t in errs:
+                reach = f.reachable_from([t])
+                hit = any(e.block in reach and (re.search(r"Cache::<K, V, S>::(invalidate|remove)$", e.name or "") or set(prog.callee_nodes(e)) & inv_ids)
+                          for e in f.calls())
+                ok = ok and hit
+            rep.ob(rule, "commit-error-forgets-cache|%s" % prog.outer_fn(f).path.rsplit("::", 1)[1], ok,
+                   "an error of the commit (the metadata put / delete inside and_try_compute_with) returns with the cache entry untouched: when the "
+                   "backend applied the call although it reported failure, head / get keep answering the superseded version and token from the cache "
+                   "while every Update(token) is refused with Precondition - for the cache TTL the key cannot be written, and a collection whose ids.cbor "
+                   "commit was lost this way cannot be reopened in the process", c.where())
+    if n < 2:
+        raise CheckerFault("anchor missing: and_try_compute_with commit points in sidecar.rs (found %d)" % n)
